@@ -339,6 +339,27 @@ func Moves(v spec.Vec, f func(s, label string)) {
 	}
 }
 
+// ByteRuns calls f with long runs of one "special" byte (UTF-8 continuation bytes, lead
+// bytes without continuation, invalid bytes, NUL, DEL) as the whole input, in front of and
+// behind a valid vector, and inside a token.
+func ByteRuns(v spec.Vec, full bool, f func(s, label string)) {
+	base := v.String()
+	lens := []int{1, 2, 3, 4, 63, 64, 65, 127, 128, 129, 130, 255, 256, 257, 258, 1024}
+	if full {
+		lens = append(lens, 4096, 65536, 65537)
+	}
+	for _, b := range []byte{0x00, 0x7f, 0x80, 0xa0, 0xbf, 0xc0, 0xc2, 0xe0, 0xed, 0xf0, 0xf4, 0xf8, 0xfe, 0xff} {
+		for _, n := range lens {
+			run := strings.Repeat(string([]byte{b}), n)
+			f(run, "bytes:whole-input")
+			f(run+base, "bytes:prefix")
+			f(base+run, "bytes:suffix")
+			f(base+"/ZZ:"+run, "bytes:extra-token-value")
+			f(run+"/"+base, "bytes:leading-token")
+		}
+	}
+}
+
 // Shapes runs all of the above for one vector and decoder level.
 func Shapes(ver int, v spec.Vec, level spec.Level, full bool, f func(s, label string)) {
 	ValueRuns(ver, v, f)
@@ -347,6 +368,7 @@ func Shapes(ver int, v spec.Vec, level spec.Level, full bool, f func(s, label st
 	LongTokens(ver, v, full, f)
 	Confusables(v, f)
 	Dense(v, full, f)
+	ByteRuns(v, full, f)
 }
 
 // RandomShape draws one shaped input with rapid (random kind, count, position).
